@@ -55,6 +55,21 @@ def run(chk, which, pid):
         raise tlc.MachineryError("the pinned accept()/close() design is expected to violate NoServiceAfterClose, TLC says %r" % res.violation)
     chk.add_tlc(res, "RpycServerSteps without the re-check (pinned tree): TLC's counterexample - close() between `if not self.active` "
                 "and `self.clients.add(sock)` - is one of the windows executed below")
+    # the thread-pool server: accept thread, polling thread, worker and close() over fd_to_conn / poll registrations / queue,
+    # descriptor numbers handed out lowest-free
+    res = tlc.require_ok(tlc.run_tlc("RpycPoolSteps", "MC_RpycPoolSteps.cfg" if chk.thorough else "MC_RpycPoolSteps_q.cfg", workers=8,
+                                     coverage=True), "RpycPoolSteps")
+    if res.violation:
+        raise tlc.MachineryError("RpycPoolSteps (repaired tree) violates " + res.violation)
+    chk.add_tlc(res, "RpycPoolSteps, repaired tree: 2 clients, 2 descriptor numbers: GoodNeverCut, NothingLeftBehind, TableTruthful"
+                + (", DepartedAreForgotten, CloseFinishes" if chk.thorough else ""))
+    want = "GoodNeverCut" if which == "c16" else "NothingLeftBehind"
+    res = tlc.run_tlc("RpycPoolSteps", "MC_RpycPoolSteps_pinned_%s.cfg" % which, workers=4)
+    if res.violation != want:
+        raise tlc.MachineryError("the pinned pool design is expected to violate %s, TLC says %r" % (want, res.violation))
+    chk.add_tlc(res, "RpycPoolSteps, pinned tree (%s): TLC's counterexample is one of the windows executed below" % (
+        "_drop_connection(fd) after EOFError with the descriptor number reused" if which == "c16"
+        else "fd_to_conn entry made after close() walked the table"))
     try:
         quick = not chk.thorough
         plan2 = [("threaded", False, 25 if quick else None), ("pool", False, 12 if quick else None)]
